@@ -65,6 +65,7 @@ struct tsink {
     unsigned char buf[4200];
     size_t n;
     size_t fail_at; /* octet index at which the sink reports ERR_SINK */
+    size_t maxper;  /* chunk style: takes at most this many octets per call (0: all); 100 + k: never across a k-octet page */
 };
 
 static int
@@ -84,8 +85,15 @@ tsink_chunk(void *drv, const void *p, size_t n)
 {
     struct tsink *s = drv;
     const unsigned char *c = p;
-    /* accepts as much as fits before the failure point */
+    /* accepts as much as fits before the failure point; a short write is legal for a chunk driver */
     size_t i;
+    if (s->maxper >= 100) {
+        size_t page = s->maxper - 100, room = page - s->n % page;
+        if (n > room)
+            n = room;
+    } else if (s->maxper && n > s->maxper) {
+        n = s->maxper;
+    }
     for (i = 0; i < n; i++) {
         if (s->n == s->fail_at)
             return i ? (ssize_t)i : ERR_SINK;
@@ -115,6 +123,12 @@ mk_sink(Sink *snk, struct tsink *t, int chunk)
 {
     t->n = 0;
     t->fail_at = SIZE_MAX;
+    /* chunk sinks take everything, one, two or three octets per call, or write in pages of 4 / 16 octets */
+    static const size_t pers[] = { 0, 1, 0, 2, 104, 3, 0, 116 };
+    static unsigned sink_toggle;
+    t->maxper = chunk ? pers[(sink_toggle++ + vh_unit_salt) % 8] : 0;
+    if (t->maxper)
+        VH_COUNT("chunk sink that takes only part of what it is offered");
     if (chunk)
         chunk_sink_init(snk, tsink_chunk, t);
     else
@@ -338,6 +352,86 @@ check_raw(const unsigned char *in, size_t n, int sof, int srcchunk, int sinkchun
         }
     }
     vh_fail("decode-calls", key, "input=%s: still not at the end after %zu calls", vh_hex(in, n), n + 2);
+}
+
+/* SLIP over SLIP: the outer encoder writes into a sink whose driver encodes every chunk it is handed as a frame of
+ * its own on a lower sink (a nested encoder call while the outer one is still at work). Taking the lower stream
+ * apart frame by frame with the reference decoder must give back the outer encoding octet for octet. */
+struct stunnel {
+    Sink *lower;
+    int sof;
+    unsigned calls;
+    int err;
+};
+
+static ssize_t
+stunnel_chunk(void *drv, const void *p, size_t n)
+{
+    struct stunnel *t = drv;
+    t->calls++;
+    RFC1055Context c;
+    ctx_setup(&c, t->sof);
+    Source src;
+    struct tsrc ts;
+    mk_source(&src, &ts, (int)(t->calls & 1), p, n);
+    int rc = rfc1055_encode(&c, &src, t->lower);
+    if (rc < 0 && rc != -ENODATA) {
+        t->err = rc;
+        return rc;
+    }
+    return (ssize_t)n;
+}
+
+static int
+stunnel_octet(void *drv, unsigned char c)
+{
+    return (int)stunnel_chunk(drv, &c, 1);
+}
+
+static void
+check_tunnel(const unsigned char *p, size_t n, int sof, int srcchunk, int sinkchunk)
+{
+    const char *key = modekey(sof, srcchunk, sinkchunk);
+    unsigned char ref[2200];
+    size_t rn = ref_encode(sof, p, n, ref);
+    RFC1055Context ctx;
+    ctx_setup(&ctx, sof);
+    Source src;
+    struct tsrc ts;
+    mk_source(&src, &ts, srcchunk, vh_arena_copy(p, n), n);
+    Sink lower, tun;
+    static struct tsink tk;
+    mk_sink(&lower, &tk, 1);
+    tk.maxper = 0;
+    struct stunnel t = { &lower, !sof, 0, 0 };
+    if (sinkchunk)
+        chunk_sink_init(&tun, stunnel_chunk, &t);
+    else
+        octet_sink_init(&tun, stunnel_octet, &t);
+    int rc = rfc1055_encode(&ctx, &src, &tun);
+    /* take the lower stream apart */
+    struct refdec rd;
+    refdec_init(&rd, !sof);
+    unsigned char got[2200], frame[256];
+    size_t gn = 0, pos = 0, fl;
+    int bad = 0;
+    for (;;) {
+        int r = refdec_call(&rd, tk.buf, tk.n, &pos, frame, &fl);
+        if (r == -ENODATA)
+            break;
+        if (r != 1 || gn + fl > sizeof got) {
+            bad = 1;
+            break;
+        }
+        memcpy(got + gn, frame, fl);
+        gn += fl;
+    }
+    if (rc < 0 && rc != -ENODATA)
+        vh_fail("tunnel", key, "payload=%s: outer encoder rc=%d (inner %d)", vh_hex(p, n > 16 ? 16 : n), rc, t.err);
+    else if (bad || gn != rn || memcmp(got, ref, rn) != 0)
+        vh_fail("tunnel", key, "payload=%s: through a nested encoder the outer encoding reads %s, reference %s", vh_hex(p, n > 16 ? 16 : n),
+                vh_hex(got, gn > 24 ? 24 : gn), vh_hex(ref, rn > 24 ? 24 : rn));
+    VH_COUNT("encoder writing into a sink that encodes what it receives (nested encoder calls)");
 }
 
 /* two decoders at work alternately - one classic, one start-of-frame, each on its own stream, one decode call at
@@ -746,6 +840,8 @@ u_random(uint64_t idx, void *arg)
             size_t half = rn / 2;
             vh_case_tag("interleaved");
             check_interleaved(p, half, p + half, rn - half, (cfg >> 1) & 1, (cfg >> 2) & 1);
+            vh_case_tag("tunnel");
+            check_tunnel(p, rn > 60 ? 60 : rn, cfg & 1, (cfg >> 1) & 1, (cfg >> 2) & 1);
         }
         if (mode == 2)
             VH_COUNT("random payload of control characters only (worst-case length)");
@@ -770,7 +866,9 @@ harness_run(void)
         vh_unit("random", i, u_random, NULL);
     vh_require("every octet value behind an escape octet as raw decoder input");
     vh_require("random octets as raw decoder input");
+    vh_require("chunk sink that takes only part of what it is offered");
     vh_require("two decoders interleaved call by call");
+    vh_require("encoder writing into a sink that encodes what it receives (nested encoder calls)");
     static const char *req[] = { "payload encoded, compared and round-tripped", "raw input: frame delivered",
                                  "raw input: illegal sequence reported", "raw input: source end returned unchanged",
                                  "garbage: prefix empty or ending in a delimiter (all three frames required)",
